@@ -855,6 +855,15 @@ func (mvcc *MVCCLevelDB) Prewrite(req *kvrpcpb.PrewriteRequest) []error {
 			}
 		}
 		if op == kvrpcpb.Op_CheckNotExists {
+			if forUpdateTS == 0 {
+				// Like TiKV, run the lock and write-conflict checks of an optimistic
+				// mutation; only the lock itself is not written.
+				err = prewriteMutation(mvcc.getDB(""), &leveldb.Batch{}, m, startTS, primary, ttl, txnSize, kvrpcpb.PrewriteRequest_SKIP_PESSIMISTIC_CHECK, minCommitTS, req.AssertionLevel)
+				if err != nil {
+					errs = append(errs, err)
+					anyError = true
+				}
+			}
 			continue
 		}
 
